@@ -3,6 +3,7 @@ Props/C11.lean — Each recognised distinfo line lands on its file; other lines 
 nothing.  Property theorems only; helper lemmas live in Lemmas/.
 -/
 import PkgsrcVerif.Lemmas.Distinfo
+import PkgsrcVerif.Lemmas.EntryType
 import PkgsrcVerif.Spec.Distinfo
 open M L
 
@@ -148,3 +149,18 @@ theorem C11_line_loop_runs_once (b : Bytes) :
     (∀ l ∈ splitNl' b, lineFromBytesNl l = lineFromBytes l) ∧
     (splitNl' b).foldl (fun d line => d.applyLine (lineFromBytesNl line)) {} = distinfoFromBytes b :=
   ⟨fun l hl => lineFromBytesNl_of_no_nl l (splitNl'_pieces b l hl), distinfoFromBytes_mirrors b⟩
+
+/-- **Classification = the statement's rule**: the code's `EntryType::from` (byte tests on
+    `Path::file_name()`) decides "patch file" exactly as the statement's shell globs on the final
+    path component: (patch-* or emul-*-patch-*) and none of patch-local-*, *.orig, *.rej, *~,
+    *.tar.* — for every path of arbitrary bytes. -/
+theorem C11_classification (path : Bytes) : entryType path = S.entryType path :=
+  entryType_eq path
+
+/-- hence a recognised checksum line lands in the map the statement's rule names -/
+theorem C11_lands_by_rule (d : Distinfo) (p : Bytes) (dg : Digest) (h : Bytes) :
+    ∃ m, d.updateChecksum p dg h = d.setMap (S.entryType p) m := by
+  rw [← C11_classification]
+  unfold Distinfo.updateChecksum
+  simp only
+  split <;> exact ⟨_, rfl⟩
